@@ -196,6 +196,14 @@ def stepLine (net : Net) (toks : List String) : Net × String :=
         match getNode net i with
         | some n => finish net (apiTunnelData sym n cid org tag)
         | none => bad
+      | "rps", [i, cid, hop, org, tag] =>
+        match getNode net i with
+        | some n => finish net (apiStaleTunnelData sym n cid hop org tag)
+        | none => bad
+      | "rpn", [i, cid, mid] =>
+        match getNode net i with
+        | some n => finish net (apiTunnelNested sym n cid mid)
+        | none => bad
       | "png", [o] =>
         match getNode net o with
         | some n => finish net (apiPing sym n)
